@@ -16,7 +16,7 @@ LEVEL_TEXT = ('Lean 4 theorems about an executable list model of Spectrum whose 
               'one value per wavelength) is preserved by crop/trim/pad/append/resample and by every history, also when an operation is refused; '
               'crop keeps exactly the closed range and is covariant under a change of unit (crop_scale_covariant); trim keeps first-to-last '
               'sample above tolerance; retained samples are unaltered; `integrate s a b` (the model of method="trapz"; the default "simps" is not modelled) is linear in the values and additive at a sample '
-              '(integrate_linear, integrate_additive_at_sample) and exact for piecewise-linear data relative to the hand-defined reference `pwLinearIntegral` (trapz_exact_piecewise_linear, integrate_exact_piecewise_linear: equal to the sum over segments of the increments of a primitive of each segment\'s line; trapz_exact_linear_segment for one global line); both rules return one bin per centre (bin_length); trapezoid bins of a non-negative spectrum are non-negative for non-negative fill values and strictly increasing centres (bin_trapz_nonneg, about `bin` itself; hypotheses 0 ≤ fill_below, 0 ≤ fill_above, StrictInc centres; under preserve_power with a zero raw sum the model value is 0 by ℚ\'s x/0 = 0 whereas the code returns nan/inf — see ASSUMPTIONS), exact for a spectrum whose samples lie on ONE line with all bin edges inside the sampled range (bin_trapz_exact_linear) and, per bin, whenever the two edges of the bin lie in one data segment — the spectrum is linear across that bin, whatever it does elsewhere — the bin is the exact integral of the line of that segment (bin_trapz_exact_per_bin); Simpson bins with symmetric ends are non-negative (bin_simps_nonneg_symmetric); with power preservation the TRAPEZOID bins sum to the trapezoid `integrate` over the centres\' span (bin_preserve_power_sum) and bins normalised by a supplied integral I sum to I for either rule (bin_preserve_power_sum_given); '
+              '(integrate_linear, integrate_additive_at_sample) and exact for piecewise-linear data relative to the hand-defined reference `pwLinearIntegral` (trapz_exact_piecewise_linear, integrate_exact_piecewise_linear: equal to the sum over segments of the increments of a primitive of each segment\'s line; trapz_exact_linear_segment for one global line); both rules return one bin per centre (bin_length); trapezoid bins of a non-negative spectrum are non-negative for non-negative fill values and strictly increasing centres (bin_trapz_nonneg, about `bin` itself; hypotheses 0 ≤ fill_below, 0 ≤ fill_above, StrictInc centres; the zero-raw-sum case under preserve_power is covered: the code\'s translated guard `total != 0` leaves the raw bins unchanged), exact for a spectrum whose samples lie on ONE line with all bin edges inside the sampled range (bin_trapz_exact_linear) and, per bin, whenever the two edges of the bin lie in one data segment — the spectrum is linear across that bin, whatever it does elsewhere — the bin is the exact integral of the line of that segment (bin_trapz_exact_per_bin); Simpson bins with symmetric ends are non-negative (bin_simps_nonneg_symmetric); with power preservation the TRAPEZOID bins sum to the trapezoid `integrate` over the centres\' span whenever the un-normalised bins do not sum to zero, and are the un-normalised bins themselves when they do (bin_preserve_power_sum); bins normalised by a supplied integral I sum to I for either rule, same two cases (bin_preserve_power_sum_given); '
               ' refusals leave the spectrum (append/resample/trim/pad) or an emptied grid (crop).')
 LEVEL_NOTE = ('partial: non-negativity of Simpson bins for ends="inside" / integer-dtype centres / under preserve_power, exactness of Simpson bins '
               'and every scipy.integrate.simpson clause are oracle-only. Open known finding KF-C15-bin-integer-centres. '
@@ -40,7 +40,6 @@ UNPROVEN = [            'integrate theorems (linearity, additivity at a sample, 
             'integrate(method="simps") (scipy.integrate.simpson is not modelled)',
             ]
 ASSUMPTIONS = ['append() ignores the wavelength unit of the appended spectrum (its numbers are appended as they are and keep the caller\'s unit label): generated (tag append:other-unit), model and oracle follow the code — the result is well-formed, which is all the property claims; reported as an observation',
-               'preserve_power divides by the sum of the un-normalised bins: when that sum is zero (e.g. all centres outside the data with fill 0) the code returns nan/inf; such calls are counted (tag bin:non-finite) and only checked for agreement with the model\'s zero raw sum',
                'bin(interp_method="simps", preserve_power=True) raises ValueError (from scipy.integrate.simpson) when no data sample lies inside the span of the centres; such calls are outside the modelled scope',
                'spectra are 1-D with finite data; histories run under every unit label (nm/um/angstrom/m; also at x2^-30 and x2^10 number scales); sample, resample and bin are also run with abscissae in another unit or the default nm (the code converts a copy)',
                'histories continue after a refusal with the object as the refused call left it']
@@ -159,7 +158,7 @@ def generate(rng, tier):
                     'fa': 0.25, 'fb': [0.75, 1.0][int(rng.integers(0, 2))], 'jit': [int(x) / 8 for x in rng.integers(0, 7, 8)], 'simps': False,
                     'ends': ['symmetric', 'inside'][int(rng.integers(0, 2))], 'pp': False, 'fill': 0.0, 'unit': 'nm', 'req': 'nm', 'omit_unit': bool(rng.integers(0, 2)),
                     'cen_int': True, 'cen_dtype': ['int16', 'int32'][int(rng.integers(0, 2))], 'wscale': True})
-    # preserve_power with a zero raw sum: an all-zero spectrum, or all centres outside the data with fill 0 (the code divides 0/0)
+    # preserve_power with a zero raw sum: an all-zero spectrum, or all centres outside the data with fill 0 (bins must be zeros, never 0/0)
     for i in range(2 if tier == 'quick' else 20):
         w, v = _spec(rng, n=int(rng.integers(3, 8)))
         zero = bool(i % 2)
@@ -410,7 +409,6 @@ def _impl(c):
                 else:
                     out['norm'] = float(np.trapz(ys_, xs_))
             out['caller_unchanged'] = (_state(s) == before)
-            if 'bins' in out and not all(np.isfinite(x) for x in out['bins']): NOTES[id(c)] = ['bin:non-finite (0/0 normalisation)']
             out['after'] = _state(s); out['unit_after'] = s.waveunit
             return out
 
@@ -522,10 +520,7 @@ def _cmp_bin(c, io, m):
     if 'exc' in io: return None if (not m.get('ok') and m.get('err') == io['exc']) else f"bin: impl raised {io['exc']}, model {str(m)[:120]}"
     if not m.get('ok'): return f"bin: model refused ({m.get('err')}), impl answered"
     mb = _fl(m['v'])
-    if any(not np.isfinite(x) for x in io['bins']):
-        # preserve_power divides by the sum of the un-normalised bins: non-finite exactly when the model's raw sum is zero
-        return None if (c['pp'] and unq(m['rawsum']) == 0) else f"bins are not finite ({io['bins']}) but the model's un-normalised bins sum to {float(unq(m['rawsum']))}"
-    if c['pp'] and unq(m['rawsum']) == 0: return f"bins {io['bins']} although the un-normalised bins sum to zero"
+    if any(not np.isfinite(x) for x in io['bins']): return f"bins are not finite ({io['bins']}); the model's un-normalised bins sum to {float(unq(m['rawsum']))}, model bins {mb}"
     if not all_close(mb, io['bins'], 1e-10, 1e-13): return f"bins: impl {io['bins']} model {mb}"
     return None
 
@@ -664,9 +659,8 @@ def oracle(c, io):
         fl, fr = _fill(c['fill'])
         uniform = all(close(cen[i + 1] - cen[i], cen[1] - cen[0], 1e-12) for i in range(len(cen) - 1))
         finite = all(np.isfinite(x) for x in bins)
-        if not finite:
-            # 0/0 (or x/0) of the preserve_power normalisation when the un-normalised bins sum to zero: ASSUMPTIONS
-            return None if c['pp'] else f'{tag}: bins are not finite: {bins}'
+        if not finite: return f'{tag}: bins are not finite: {bins}'
+        if c.get('zero_sum') and any(x != 0 for x in bins): return f'{tag}: nothing to bin (dark spectrum, or every bin outside the data with fill 0) but bins {bins}'
         if min(c['value']) >= 0 and fl >= 0 and fr >= 0 and not (c['simps'] and c['pp']):
             if min(bins) < -1e-12 * (1 + max(abs(x) for x in bins)): return f'{tag}: negative bin {min(bins)!r} for a non-negative spectrum'
         if c['linear'] and not c['pp'] and (uniform or not c['simps']):
